@@ -204,9 +204,35 @@ def make_symbolic(spec, name, reg, st):
                                 {'int': z3.IntSort(), 'real': z3.RealSort(),
                                  'bool': z3.BoolSort()}[kind])
                 return SSeq(n, lambda i, f=f: f(_int(i)), kind, name)
-            # sequence of records: one UF per field
-            proto = make_symbolic(kind, name + '_proto', reg, st)
-            return _seq_of_records(proto, n, name)
+            # sequence of records: one uninterpreted function of the position per scalar field
+            if isinstance(kind, str) and kind in reg.records:
+                fields = reg.records[kind]
+                ufs = {}
+                for fname, ft in fields.items():
+                    srt = {'int': z3.IntSort(), 'nat': z3.IntSort(), 'pos': z3.IntSort(),
+                           'real': z3.RealSort(), 'posreal': z3.RealSort(),
+                           'bool': z3.BoolSort()}.get(ft)
+                    if srt is None:
+                        raise Unsupported(f'sequence of records with a non-scalar field {fname}')
+                    ufs[fname] = (z3.Function(f'{name}.{fname}!{id(n)}', z3.IntSort(), srt), ft)
+                q = z3.Int(f'bv!seqrec{id(n)}')
+                for fname, (f, ft) in ufs.items():
+                    if ft in ('nat',):
+                        st.fact(z3.ForAll([q], f(q) >= 0))
+                    elif ft in ('pos',):
+                        st.fact(z3.ForAll([q], f(q) >= 1))
+                    elif ft == 'posreal':
+                        st.fact(z3.ForAll([q], f(q) > 0))
+                cache = {}
+
+                def elem(k, ufs=ufs, kind=kind):
+                    kt = _int(k)
+                    key = kt.get_id() if hasattr(kt, 'get_id') else kt
+                    if key not in cache:
+                        cache[key] = SObj(kind, {fn_: f(kt) for fn_, (f, _) in ufs.items()})
+                    return cache[key]
+                return SSeq(n, elem, 'obj', name)
+            raise Unsupported('sequence of this element kind')
         if tag == 'arr':       # ('arr', ndim, kind[, flags])
             nd, kind = spec[1], spec[2]
             shape = tuple(fresh(f'{name}_n{k}', 'int') for k in range(nd))
